@@ -35,6 +35,7 @@ def headers(ctx):
             for c in (1, 2, 3):
                 hs.append((t, "%d:%d:%d" % (a, b, c), list(range(a, b, c)), "range"))
     lists = [("int", ["0", "2"], [0, 2]), ("int", ["3"], [3]), ("int", ["n", "n+1", "0"], [2, 3, 0]), ("int", ["1", "1", "2*n"], [1, 1, 4]),
+             ("int", ["-2", "0", "3"], [-2, 0, 3]), ("int", ["0", "0"], [0, 0]), ("int", ["2", "1", "2"], [2, 1, 2]),
              ("float", ["0.5", "1"], [0.5, 1.0]), ("float", ["n/4"], [0.5]), ("float", ["-1.5", "2", "A[1]"], [-1.5, 2.0, 2.5]),
              ("bool", ["True", "False"], [True, False]), ("bool", ["False"], [False]),
              ("str", ['"a"', '"b"'], ["a", "b"]), ("str", ['"x y"'], ["x y"])]
